@@ -269,6 +269,7 @@ def run_files(chk, tagname):
         combos += [(d, w, a, m) for d in (1, 2, 3) for w in ('False', 'True') for a in ('False', 'True') for m in ('False', 'True')]
     combos = [c + ('LIST', 'W_MOM') for c in combos] + [(2, 'False', 'True', 'False', 'EQP', 'W_MOM'), (1, 'True', 'False', 'False', 'EQP', 'W_MOM')]
     # the weights are those of the column the user names (--weightcol): a second weight column with other values in the same file
+    # (weights are positive, not bounded by one: an optimal-weight column has a free normalisation)
     combos += [(3, 'True', 'True', 'False', 'LIST', 'W_NN'), (1, 'True', 'False', 'True', 'LIST', 'W_NN'), (2, 'False', 'True', 'False', 'LIST', 'W_NN')]
     for du, weights, acc, mc, ebinalg, wcol in combos:
         n = int(g.integers(300, 1500))
@@ -284,7 +285,7 @@ def run_files(chk, tagname):
             if wcol != 'W_MOM':
                 with fits.open(path) as h:
                     evh = h['EVENTS']
-                    cols = evh.columns + fits.ColDefs([fits.Column(name=wcol, format='E', array=g.uniform(0.05, 1., n).astype(numpy.float32))])
+                    cols = evh.columns + fits.ColDefs([fits.Column(name=wcol, format='E', array=g.uniform(0.05, 2.5, n).astype(numpy.float32))])
                     h['EVENTS'] = fits.BinTableHDU.from_columns(cols, header=evh.header, name='EVENTS')
                     h.writeto(path, overwrite=True)
             desc = dict(op='xpbin-PCUBE', du=du, weights=weights, acceptcorr=acc, mc=mc, edges=edges, events=n, ebinalg=ebinalg, weightcol=wcol)
